@@ -159,7 +159,7 @@ Proof.
   pose proof (run_inv sched _ _ (init_ctx_inv cs ps Hp) Hr) as I.
   split; [exact (resp_matched s I q r Hq)|].
   destruct (i_flight s I) as (_ & Hf). destruct (Hf q) as (qq & E & R & C).
-  { unfold flight. rewrite Hq. apply in_or_app. right. apply in_or_app. right. left. reflexivity. }
+  { unfold flight. rewrite Hq. rewrite !in_app_iff. simpl. tauto. }
   exists qq. repeat split; auto. intros q' qq' E' R' Q'. exact (proj2 (i_req s I) q' q qq' qq E' E R' R Q').
 Qed.
 Print Assumptions response_matched_to_issuer.
@@ -234,25 +234,25 @@ Print Assumptions after_terminate_engine_idle.
 (** ** The hypotheses are satisfiable on non-trivial states *)
 
 Definition prog_two : list (list op) :=
-  [[OEnq 0 (noop 1); OEnq 1 (mkCmd 2 Async); ODrain 0; ODrain 1];
-   [OEnq 1 (noop 3); ODrain 1; OEnq 0 (mkCmd 4 Async); ODrain 0]].
+  [[OEnq 0 (noop 1); OEnq 1 (mkCmd 2 Async); OEnq 0 (mkCmd 5 Empty); ODrain 0; ODrain 1];
+   [OEnq 1 (noop 3); ODrain 1; OEnq 0 (mkCmd 4 Async); OEnq 0 (mkCmd 6 Empty); ODrain 0]].
 
-(** Two threads, two queues, no-op and asynchronous commands: the first-enabled
+(** Two threads, two queues, no-op, asynchronous and empty-copy commands: the first-enabled
     scheduler drives the repaired protocol to the state where every call has
     returned and both queues completed their commands in submission order. *)
 Example fixed_runs_to_completion :
   progs_ok 2 prog_two = true /\
-  let (sched, s) := auto_run 400 cfg_fixed (init 2 prog_two) in
+  let (sched, s) := auto_run 600 cfg_fixed (init 2 prog_two) in
   run cfg_fixed (init 2 prog_two) sched = Some s /\ all_done s = true /\
-  map q_done (queues s) = [[1; 4]; [2; 3]]%N /\ map a_ret (apps s) = [2; 2].
+  map q_done (queues s) = [[1; 5; 4; 6]; [2; 3]]%N /\ map a_ret (apps s) = [2; 2].
 Proof. vm_compute. repeat split; reflexivity. Qed.
 
 (** ... while the same scheduler, on the code as found, after the lost
     wake-up prefix, ends in the deadlock. *)
-(** The bound is not vacuous: 499 for that program, and the run above uses 151 steps. *)
+(** The bound is not vacuous: 679 for that program, and the run above uses 190 steps. *)
 Example rank_of_example :
-  rank (init 2 prog_two) = 499 /\ length (fst (auto_run 400 cfg_fixed (init 2 prog_two))) = 151 /\
-  rank (snd (auto_run 400 cfg_fixed (init 2 prog_two))) = 0.
+  rank (init 2 prog_two) = 679 /\ length (fst (auto_run 600 cfg_fixed (init 2 prog_two))) = 190 /\
+  rank (snd (auto_run 600 cfg_fixed (init 2 prog_two))) = 0.
 Proof. vm_compute. repeat split; reflexivity. Qed.
 
 Example orig_deadlocks :
